@@ -42,7 +42,17 @@ fn concretise(r: &mut Rng, sc: &Value, pw: &str, tail: &[u8]) -> Option<Case> {
     let apad = sc.get("pad")?.as_u64()? as usize;
     let atrunc = sc.get("trunc")?.as_u64()? as usize;
     let feeds = sc.get("feeds")?.as_array()?;
-    let pad = match apad { 0 => 0, 1 => *r.pick(&[1usize, 29, 30, 31, 255]), _ => *r.pick(&[256usize, 4000, 65534, 65535]) };
+    // boundary lengths: around u8/u16 limits, powers of two and multiples of common buffer sizes (+-1), random
+    let pad = match apad {
+        0 => 0,
+        1 => *r.pick(&[1usize, 2, 29, 30, 31, 32, 63, 64, 127, 128, 254, 255]),
+        _ => match r.below(4) {
+            0 => *r.pick(&[256usize, 257, 511, 512, 513, 1023, 1024, 1025, 2048, 4095, 4096, 4097, 8191, 8192, 8193, 12288, 16383, 16384, 16385, 32767, 32768, 32769, 40960, 61440, 65534, 65535]),
+            1 => (r.range(1, 15) as usize) * 4096,
+            2 => (r.range(1, 63) as usize) * 1024 + (r.below(3) as usize) - 1,
+            _ => r.range(256, 65535) as usize,
+        },
+    };
     let hash = anytls_rs::hash_password(pw);
     let pos = match dev { 1 => 0, 2 => r.range(1, 30) as usize, _ => 31 };
     let h = if dev == 0 { hash } else { deviate(r, &hash, pw, pos) };
